@@ -721,11 +721,15 @@ fn check_cull(t: &STri, bw: u32, bh: u32, vp: (u32, u32, u32, u32), kind: Target
     let orc_rev = Oracle::new(&rev_scene);
     for j in 0..bh { for i in 0..bw { let p = (j * bw + i) as usize; if matches!(orc.pixel(i, j), Truth::Inside { .. } | Truth::Outside) && matches!(orc_rev.pixel(i, j), Truth::Inside { .. } | Truth::Outside) { let (a, b) = (ca_none[p] != color_sentinel(p), cb_none[p] != color_sentinel(p)); if a != b { r.violation(format!("cull-off-orders-differ|{tag}"), format!("pixel ({i},{j}) is drawn for one vertex order only although culling is off"), case()); return; } } } }
     for (mode, name) in [(FaceCull::Back, "Back"), (FaceCull::Front, "Front")] {
-        let (Ok((fa, _)), Ok((fb, _))) = (draw(t, Some(mode)), draw(&rev, Some(mode))) else { return; };
+        let (Ok((_, ca)), Ok((_, cb))) = (draw(t, Some(mode)), draw(&rev, Some(mode))) else { return; };
+        // "drawn" = drawn at a pixel that is unambiguously inside: fragments on edge pixels may come from zero-area fan
+        // triangles of the clipped polygon whose winding is rounding noise
+        let inside_drawn = |c: &Vec<u32>| (0..bh).flat_map(|j| (0..bw).map(move |i| (i, j))).filter(|&(i, j)| { let p = (j * bw + i) as usize; c[p] != color_sentinel(p) && matches!(orc.pixel(i, j), Truth::Inside { .. }) && matches!(orc_rev.pixel(i, j), Truth::Inside { .. }) }).count();
+        let (fa, fb) = (inside_drawn(&ca), inside_drawn(&cb));
         // convention: Back culls triangles whose on-screen signed area (x1-x0)(y2-y0)-(y1-y0)(x2-x0) is positive
         let a_is_back = area > 0.0;
         let a_drawn_expected = match mode { FaceCull::Back => !a_is_back, FaceCull::Front => a_is_back };
-        if (fa > 0) == (fb > 0) { r.violation(format!("cull-not-exactly-one|{name}|{tag}"), format!("with face_cull = {name} the two vertex orders produced {fa} and {fb} fragments (exactly one must be drawn)"), case()); return; }
+        if (fa > 0) == (fb > 0) { r.violation(format!("cull-not-exactly-one|{name}|{tag}"), format!("with face_cull = {name} the two vertex orders drew {fa} and {fb} unambiguously interior pixels (exactly one must be drawn)"), case()); return; }
         if (fa > 0) != a_drawn_expected { r.violation(format!("cull-wrong-side|{name}|{tag}"), format!("with face_cull = {name} the order with on-screen signed area {area:.2} was {} but should have been {}", if fa > 0 { "drawn" } else { "culled" }, if a_drawn_expected { "drawn" } else { "culled" }), case()); return; }
     }
     r.h(if clip_class(&t.v) == "clipped" { if t.v.iter().any(|p| p[3] <= 0.0) { "cull:judged-clipped-behind-viewer" } else { "cull:judged-clipped" } } else { "cull:judged-unclipped" });
